@@ -1,7 +1,8 @@
 """C15 -- urlencoded parameters equal the reference split/decoding for any chunking.
 Theorems: coq/Props/Properties_C15.v (C15_chunking: for EVERY decoder configuration and EVERY list of
 chunks, create/parse_partial*/finalize yields exactly the reference pairs of the concatenation; split
-invariance; decoded output never longer than the input; decoder facts).
+invariance; decoded output never longer than the input; token-level specification of the decoder and
+flag exactness in both directions).
 Tie: S-urlenp (htp_urlenp_* with chunkings), S-dec (htp_urldecode_inplace_ex with every decoder switch
 set from the case line) and the content-handler path into tx->request_params, as a correspondence run of
 the extracted model against the library built from /repo's working tree under ASan+UBSan.
@@ -57,7 +58,7 @@ def gen_run_exhaustive(ctx):
     rotating subset; thorough: length 7 under one configuration each. Yields batches (cases, groups):
     groups = list of (index_of_whole_case, [indices of its cuts])."""
     L = 6 if ctx.thorough() else 5
-    per_long = 4
+    per_long = 16 if ctx.thorough() else 4
     cases, groups = [], []
     n = 0
     lens = list(range(L + 1)) + ([7] if ctx.thorough() else [])
